@@ -1785,6 +1785,22 @@ def rule_isolation(rep: Report, repo: Repo, rule: str) -> None:
                                 and norm(n.func.value) in (f"self.{an}", f"{cname}.{an}"):
                             rep.bad(rule, f"{ci.module}:{cname}.{mn}", norm(n)[:60],
                                     f"mutates the class-level list `{an}` in place: shared by every writer of the run")
+                        # self.X[i] = v / self.X[a:b] = vs / del self.X[i] / self.X += vs   on the class-level object
+                        tg = []
+                        if isinstance(n, ast.Assign):
+                            tg = n.targets
+                        elif isinstance(n, (ast.AugAssign, ast.AnnAssign)):
+                            tg = [n.target]
+                        elif isinstance(n, ast.Delete):
+                            tg = n.targets
+                        for t_ in tg:
+                            through = isinstance(t_, ast.Subscript) and norm(t_.value) in (f"self.{an}", f"{cname}.{an}")
+                            inplace = isinstance(n, ast.AugAssign) and norm(t_) in (f"self.{an}", f"{cname}.{an}")
+                            if through or inplace:
+                                rep.bad(rule, f"{ci.module}:{cname}.{mn}", norm(n)[:60],
+                                        f"writes into the class-level list `{an}` (no instance attribute of that name is bound first): "
+                                        f"the change is seen by every writer created afterwards", witness="two files with different "
+                                        "rst.headers documented in one process")
     import os
     from ..core import VERIF_DIR
     ctrl = ast.parse(open(os.path.join(VERIF_DIR, "controls", "shared_default.py")).read())
